@@ -418,9 +418,19 @@ func (in *Interp) vsIntrinsic(name string, fn *ssa.Function, a []Value) (Value, 
 		return in.inputBytes(tag, n, 64, types.Typ[types.Uint64]), true
 	case "vsArr32":
 		tag := in.uniqueTag(in.tagOf(a[0]))
-		s := in.inputBytes(tag, in.u64(32), 8, types.Typ[types.Uint8])
-		sa, _ := in.sliceArr(s)
-		return sa, true
+		if _, pinned := in.Cfg.Pinned[tag+"#len"]; pinned {
+			s := in.inputBytes(tag, in.u64(32), 8, types.Typ[types.Uint8])
+			sa, _ := in.sliceArr(s)
+			return sa, true
+		}
+		// one 256-bit variable; its bytes are extracts (so hashes of it stay wide terms)
+		t := in.C.Var("in!"+tag, smt.BVSort(256))
+		in.inputs = append(in.inputs, inputVar{tag: tag, kind: "wide", t: t, w: 8})
+		cells := make([]*smt.Term, 32)
+		for i := range cells {
+			cells[i] = in.C.Extract(t, 255-8*i, 248-8*i)
+		}
+		return SArray{A: &cellsArr{cells: cells, w: 8}, W: 8, N: in.u64(32)}, true
 	case "vsChoose":
 		u := in.uniqueTag("choose!" + in.tagOf(a[0]))
 		nT := a[1].(BV).T
@@ -437,7 +447,7 @@ func (in *Interp) vsIntrinsic(name string, fn *ssa.Function, a []Value) (Value, 
 		}
 		if !t.IsTrue() {
 			in.assume(t)
-			if in.decIdx >= len(in.prefix) {
+			if in.decIdx >= len(in.prefix) && !in.Cfg.NoAssumeCheck {
 				if in.checkSat() == smt.Unsat {
 					panic(&pathEnd{reason: "assume"})
 				}
@@ -489,6 +499,25 @@ func (in *Interp) vsIntrinsic(name string, fn *ssa.Function, a []Value) (Value, 
 		return in.havocInput(in.retType(fn), tag), true
 	case "vsHavocErr":
 		return in.havoc(in.retType(fn), "vsHavocErr", false), true
+	case "vsIte32":
+		// select between two [32]byte values without forking
+		v, ok := in.iteValue(a[0].(BV).T, a[1], a[2])
+		if !ok {
+			in.unsupported("vsIte32 on unmergeable values")
+		}
+		return v, true
+	case "vsUF256":
+		// uninterpreted function [32]byte -> [32]byte named by the tag
+		nm := in.tagOf(a[0])
+		var flat []*smt.Term
+		in.flatten(a[1], &flat)
+		arg := in.concatAll(flat)
+		bits := in.C.App("uf!"+nm, smt.BVSort(256), arg)
+		cells := make([]*smt.Term, 32)
+		for i := range cells {
+			cells[i] = in.C.Extract(bits, 255-8*i, 248-8*i)
+		}
+		return SArray{A: &cellsArr{cells: cells, w: 8}, W: 8, N: in.u64(32)}, true
 	case "vsFail":
 		in.recordFailure("assert", in.tagOf(a[0]), in.callerSite(), "vsFail reached", in.stackTrace())
 		panic(&pathEnd{reason: "violation"})
